@@ -10,6 +10,8 @@
 -/
 import Varlink.Ctxio
 import VarlinkProofs.Lemmas.Ctxio
+import Varlink.Extracted.Code
+import Varlink.ExpectedCode
 namespace Varlink.C17
 open Varlink Varlink.Ctxio Varlink.Extracted
 
@@ -212,5 +214,11 @@ theorem cancelled_mid_frame_example :
 theorem cancelled_blocked_raw_read_consumes_nothing (cap n : Nat) (j : Nat) (b : Bufio) (net : Net) :
     (runSeq cap [(.raw n, .cancelledTimeout j)] b net) = ([.drop []], b, net) := by
   simp [runSeq, interrupted]
+
+/-- **Tie to the source**: the declarations of /repo that this property's model transliterates
+    (`Extracted.codeNames_C17`) have, in the current working tree, exactly the fingerprints of the code the
+    model was validated against. Any change to them breaks this obligation; the check then searches the
+    correspondence streams for an input on which the changed code violates the property. -/
+theorem modelled_code_unchanged : Varlink.Extracted.code_C17 = Varlink.ExpectedCode.code_C17 := by decide
 
 end Varlink.C17
